@@ -18,3 +18,7 @@ NATIVE_COVERS = {"_toposort": ["_toposort"]}
 def native(tier, seed):
     from vf import graph_native
     return [graph_native.sweep(tier, seed)]
+
+
+# thorough tier: deliberate edits that must turn an obligation red (applied to a scratch copy, never to /repo)
+MUTATIONS = [('contracts.coregraph', '_toposort', 'dask/core.py', '                completed.add(cur)\n                seen.remove(cur)', '                seen.remove(cur)')]
